@@ -294,3 +294,68 @@ func init() {
 	register(&Scenario{Prop: "C06", Name: "c06/3inflight", Quick: []Bound{{0, 0}}, Thorough: []Bound{{1, 0}}, Body: c06Body(3, false, false), BudgetQ: 20})
 	register(&Scenario{Prop: "C06", Name: "c06/3inflight-reduced", Quick: []Bound{{1, 0}}, Thorough: []Bound{{2, 0}}, Body: c06Body(3, false, true), BudgetQ: 30})
 }
+
+// a server-side stream write whose value the body codec refuses, then ordinary calls on the same
+// and on another connection of the same server: the failure belongs to that stream message alone.
+func c06StreamBad(x *X) {
+	mode := x.Choose(3)
+	so := srvOpts{bufSize: 64, codec: rejectBytesCodec}
+	switch mode {
+	case 1:
+		so.pipelining = true
+	case 2:
+		so.shared = true
+	}
+	f := newFixture(so, cliOpts{bufSize: 64})
+	f.w.badPush = true
+	st, err := f.conn.NewStream("StreamSvc.Push")
+	if err != nil {
+		x.Fail("C06/stream-open-failed", "NewStream: %v", err)
+		return
+	}
+	// the trigger: the handler answers it with an unencodable message first and the echo second.
+	// How the failed message surfaces on this stream (the reader gets its error text) is not
+	// judged here; the calls that follow are.
+	m := append([]byte{0xBD}, streamMsg(0x31, 0)...)
+	var back []byte
+	werr := st.WriteMessage(&m)
+	rerr := st.ReadMessage(nil, &back) // (on the unchanged tree: the echo, together with the failed message's error text)
+	if werr != nil || !eqBytes(back, transform(m)) {
+		x.Fail("C06/stream-disturbed/after-unencodable-stream-message", "the stream whose handler wrote an unencodable message: write %v, read %v, echo %x", werr, rerr, back)
+	}
+	// a second connection of the same server
+	cl2, sv2 := NewPipe()
+	serveCodec(f.srv, sv2, so)
+	conn2 := newConn(cl2, so.enc, 64, so.codec)
+	var calls []*ucall
+	for i := 0; i < 5; i++ {
+		c := newUcall(byte(0x41+i), 0, 12+9*i, []int{formCall, formGo, formCallCtx, formCall, formRoundTrip}[i])
+		if i%2 == 0 {
+			c.issue(f.conn)
+		} else {
+			c.issue(conn2)
+		}
+		calls = append(calls, c)
+	}
+	out := ""
+	for _, c := range calls {
+		switch {
+		case !c.ret:
+			x.Fail("C06/neighbour-blocked/after-unencodable-stream-message", "call %d never returned", c.tag)
+		case c.err != nil:
+			x.Fail("C06/neighbour-failed/after-unencodable-stream-message", "call %d (%s), whose handler succeeded, failed with %q after a server-side stream write that could not be encoded (that write returned %q)", c.tag, formNames[c.form], c.err.Error(), f.w.badPushErr)
+		case !eqBytes(c.reply, c.want()):
+			x.Fail("C06/neighbour-wrong-reply/after-unencodable-stream-message", "call %d got reply %x", c.tag, c.reply)
+		}
+		out += fmt.Sprintf(" %d:%s", c.tag, errStr(c.err))
+	}
+	st.Close()
+	x.Outcome("mode=%d bad=%s%s", mode, f.w.badPushErr, out)
+	conn2.Close()
+	f.conn.Close()
+	vs.Quiesce()
+}
+
+func init() {
+	register(&Scenario{Prop: "C06", Name: "c06/unencodable-stream-message-then-calls", Quick: []Bound{{0, 0}, {1, 0}}, Thorough: []Bound{{2, 0}}, Body: c06StreamBad, BudgetQ: 15})
+}
